@@ -15,7 +15,7 @@ RULE = ("DeepONets over generated architectures (FC trunk with/without Sequentia
         "(create_graph) and parameter gradients of a loss built from the second derivatives. No draws once samplers are static "
         "grids: no fault kind applies (stated). non-trivial = >= 1 forward judged; distinct = architecture cell x operation sequence")
 ASSUMPTIONS = ["per-function trunk layouts are given as copies of one batch (what the fast path documents and the conditions do)",
-               "derivative comparisons in the per-function layout compare the sum over the copy axis"]
+               "derivatives and parameter gradients are compared element-wise in both layouts (in the per-function layout the derivative w.r.t. copy i is function i's)"]
 COMPONENTS = {"real": ["torchphysics DeepONet, FCBranchNet, ConvBranchNet1D, FCTrunkNet, TrunkLinear (custom autograd function), CustomFunctionSet, FunctionSetCollection"],
               "owned_by_simulator": ["order of fix/forward operations", "weight initialisation seed"], "stubbed_or_disabled": []}
 
